@@ -16,7 +16,8 @@ call other than the listed immutable/registry constructors), global_stmt (`globa
 (os.urandom, secrets.*), globalrandom (module-level random.* / numpy.random.*
 functions, i.e. the process-global RNG), setiter (iteration / list() / tuple() /
 next(iter()) / .pop() / min / max / random.choice over an attribute or local whose
-initialiser or annotation is a set).
+initialiser or annotation is a set), completion_order (a loop over concurrent.futures.as_completed / wait: the
+order is wall-clock timing; the detail lists every name the body assigns and every method it calls).
 C07 kinds: wait_loop (every while loop of a generator that yields: what it yields per round decides whether it can spin),
 stale_now (in a generator: a name bound from `.now` before a `yield`
 and used in Event(time=...) after it, or an Event built before a yield and
@@ -187,6 +188,22 @@ class Collector(ast.NodeVisitor):
     def visit_For(self, node):
         if self.is_set_ref(node.iter):
             self.add("setiter", "for " + ast.unparse(node.iter))
+        it = node.iter
+        if isinstance(it, ast.Call) and (dotted(it.func) or "").split(".")[-1] in ("as_completed", "wait"):
+            # thread / future completion order is wall-clock timing: everything the loop body writes or calls
+            # is part of the site, so that a body that starts to feed the order into the run shows up
+            writes = set()
+            for sub in ast.walk(ast.Module(body=node.body, type_ignores=[])):
+                if isinstance(sub, (ast.Assign, ast.AugAssign, ast.AnnAssign)):
+                    for t in (sub.targets if isinstance(sub, ast.Assign) else [sub.target]):
+                        for leaf in ast.walk(t):
+                            if isinstance(leaf, ast.Name):
+                                writes.add(leaf.id)
+                            elif isinstance(leaf, ast.Attribute) and dotted(leaf):
+                                writes.add(dotted(leaf))
+                elif isinstance(sub, ast.Call) and isinstance(sub.func, ast.Attribute) and dotted(sub.func):
+                    writes.add(dotted(sub.func) + "()")
+            self.add("completion_order", "writes/calls: " + ", ".join(sorted(writes)))
         self.generic_visit(node)
 
     def visit_comprehension(self, node):
